@@ -595,6 +595,75 @@ impl<'a, T: Transport> Transferrer<'a, T> {
     }
 }
 
+/// Verification hook H3 (compiled only with `--cfg nijaru_sy_verif`, add-only):
+/// lets an external harness build a `Transferrer` over any `Transport` and observe
+/// the shared inode map, so the hard-link hand-off can be polled by a deterministic
+/// scheduler. Nothing here is reachable in a normal build.
+#[cfg(nijaru_sy_verif)]
+pub mod verif {
+    use super::{InodeState, Transferrer};
+    use crate::cli::SymlinkMode;
+    use crate::transport::Transport;
+    use std::collections::HashMap;
+    use std::path::PathBuf;
+    use std::sync::{Arc, Mutex};
+
+    /// What an observer may see of one map entry (the `Notify` stays private).
+    #[derive(Clone, Debug, PartialEq, Eq, PartialOrd, Ord)]
+    pub enum InodeStateView {
+        InProgress,
+        Completed(PathBuf),
+    }
+
+    /// Opaque handle to the per-run `inode -> state` map.
+    #[derive(Clone, Default)]
+    pub struct HardlinkMapHandle(Arc<Mutex<HashMap<u64, InodeState>>>);
+
+    impl HardlinkMapHandle {
+        /// A fresh, empty map (what `SyncEngine::sync` creates once per run).
+        pub fn new() -> Self {
+            Self::default()
+        }
+
+        /// Current contents, sorted by inode.
+        pub fn snapshot(&self) -> Vec<(u64, InodeStateView)> {
+            let map = self.0.lock().unwrap();
+            let mut v: Vec<(u64, InodeStateView)> = map
+                .iter()
+                .map(|(k, s)| {
+                    let view = match s {
+                        InodeState::InProgress(_) => InodeStateView::InProgress,
+                        InodeState::Completed(p) => InodeStateView::Completed(p.clone()),
+                    };
+                    (*k, view)
+                })
+                .collect();
+            v.sort();
+            v
+        }
+    }
+
+    /// The per-task worker exactly as `SyncEngine::sync` builds it (no dry-run, no
+    /// xattrs/ACLs/flags), sharing `map` with every other worker of the run.
+    pub fn transferrer<'a, T: Transport>(
+        transport: &'a T,
+        preserve_hardlinks: bool,
+        map: &HardlinkMapHandle,
+    ) -> Transferrer<'a, T> {
+        Transferrer::new(
+            transport,
+            false,
+            false,
+            SymlinkMode::Preserve,
+            false,
+            preserve_hardlinks,
+            false,
+            false,
+            Arc::clone(&map.0),
+        )
+    }
+}
+
 #[cfg(test)]
 mod tests {
     use super::*;
